@@ -31,6 +31,7 @@ func (e *executionContext) appendLog(ctx context.Context, logBuilder func() *led
 	}
 
 	verifhook.Yield(ctx, "append.enter")
+	verifhook.Block(ctx, "append.lock")
 	e.commander.appendMu.Lock()
 	log := logBuilder()
 	if e.parameters.IdempotencyKey != "" {
@@ -38,6 +39,7 @@ func (e *executionContext) appendLog(ctx context.Context, logBuilder func() *led
 		log = log.WithIdempotencyKey(e.parameters.IdempotencyKey)
 	}
 	chainedLog := e.commander.chainLog(log)
+	verifhook.Yield(ctx, "append.chained")
 	logging.FromContext(ctx).WithFields(map[string]any{
 		"id": chainedLog.ID,
 	}).Debugf("Appending log")
